@@ -339,6 +339,8 @@ class EvalFunc:
         self.code_str = code_str
         self.trigger = []
         self.trigger_service = set()
+        # when a trigger last ran this function (shared by its triggers for hold_off)
+        self.trigger_last_time = None
         self.has_closure = False
         self.async_func = async_func
 
